@@ -28,7 +28,7 @@ Step(e) ==
             ELSE /\ stats' = [stats EXCEPT !.scenarios = @ + 1, !.clean = @ + 1] /\ UNCHANGED <<cfg, bad>>
     [] e.op = "race" ->
          /\ PrintT(<<"BAD", ToJson([case |-> e.case, at |-> l, cfg |-> [x |-> 0],
-                      items |-> <<[diag |-> "data-race", scenario |-> e.scenario, a |-> e.a, b |-> e.b, akind |-> e.akind, bkind |-> e.bkind,
+                      items |-> <<[diag |-> "data-race", scenario |-> e.scenario, a |-> e.a, b |-> e.b, akind |-> e.akind, bkind |-> e.bkind, afields |-> e.afields, bfields |-> e.bfields,
                                    modelled |-> Predicted(e.sa, e.sb)]>>])>>)
          /\ bad' = bad + 1 /\ stats' = [stats EXCEPT !.races = @ + 1] /\ UNCHANGED cfg
     [] OTHER -> UNCHANGED <<cfg, bad, stats>>
